@@ -478,6 +478,21 @@ func c14LengthForms(c *core.Ctx) {
 			}
 		}
 	}
+	// exclusive dispatch: both marker tests look at the 7-bit field of the first byte — once an extended length
+	// has been stored (setReadRemaining on an arm) no marker test may be evaluated again
+	exclusive := b126 != nil && b127 != nil
+	if exclusive {
+		for _, s := range sets {
+			for _, mb := range []*core.Branch{b126, b127} {
+				cond := core.Loc{B: mb.B, I: len(mb.B.Nodes) - 1}
+				onArm := ag.EdgeDominates(b126.B, 0, s.Loc) || ag.EdgeDominates(b127.B, 0, s.Loc)
+				if onArm && ag.CanFollow(s.Loc, cond) {
+					exclusive = false
+				}
+			}
+		}
+	}
+	c.Check(RD, "webtransport.(*Conn).advanceFrame/exclusive-marker-dispatch", adv.Pos(), exclusive, "no marker test (126 / 127) is re-evaluated after an extended length has been stored: a 16-bit length of 127 must not be read as the 64-bit marker")
 	c.Check(RD, "webtransport.(*Conn).advanceFrame/length-decoding", adv.Pos(), gotMask && got16 && got64 && len(sets) == 3,
 		keyf("7-bit mask 0x7f=%v, BigEndian.Uint16@126=%v, BigEndian.Uint64@127=%v, setReadRemaining calls=%d", gotMask, got16, got64, len(sets)))
 	c.Check(RA, "webtransport/encoder↔decoder-forms", u.Pos(), seen["64bit"] && seen["16bit"] && seen["7bit"] && gotMask && got16 && got64,
